@@ -2,18 +2,17 @@ import EoNVerif.Gen.PyTM
 /-!
 Runtime of the code generated from the discrete-time simulators (`harness/pydisc2lean.py`).
 
-Besides the scripted random tape (`TM`) the generated code needs two more oracles:
-* the iteration order of a Python `set` (CPython: a function of the hashes and of the insertion history — not
-  modelled).  A `set` is a duplicate-free `List Node` (insertion order); `for x in <set>` asks the oracle for a
-  permutation of it (`iterSet`).  An entry `none` means "not observed": the list order is used.  The refinement
-  theorems quantify over every oracle.
+Besides the scripted random tape (`TM`) the generated code needs two more things:
+* the iteration order of a Python `set`.  In CPython it is a deterministic function of the hashes and of the sequence
+  of insertions.  A `set` is kept as a duplicate-free `List Node` in insertion order, and `for x in <set>` iterates
+  over `P.iter s` — a parameter.  The refinement theorems quantify over every permutation-valued `iter`; the driver
+  instantiates it with a model of CPython's open-addressing table (`cpyOrder`, below), fed with the real hashes.
 * the answers of the user callbacks `test_transmission(u, v, *args)` / `test_recovery(u)`: each call is logged with
   its arguments and answered from a script (`ask`), like the random primitives.
 -/
 namespace PyDM
 
 structure DSt where
-  orders : List (Option (List Node))
   answers : List Bool
   calls : Array (List Nat) := #[]
 
@@ -22,17 +21,6 @@ abbrev DM := StateT DSt TM
 def liftT {α : Type} (x : TM α) : DM α := fun s => do let a ← x; pure (a, s)
 def liftE {α : Type} (x : Except String α) : DM α := liftT (PyTM.liftE x)
 def fail {α : Type} (msg : String) : DM α := liftT (TM.fail msg)
-
-/-- `o` is a rearrangement of the duplicate-free list `s` -/
-def isPermOf (o s : List Node) : Bool :=
-  o.length == s.length && o.all (fun x => s.contains x) && s.all (fun x => o.contains x)
-
-/-- `for x in s` for a Python `set` -/
-def iterSet (s : List Node) : DM (List Node) := fun st =>
-  match st.orders with
-  | [] => TM.fail "order-oracle-exhausted"
-  | none :: r => pure (s, { st with orders := r })
-  | some o :: r => if isPermOf o s then pure (o, { st with orders := r }) else TM.fail "order-oracle-mismatch"
 
 /-- a call of a user callback: logged with its arguments, answered from the script -/
 def ask (call : List Nat) : DM Bool := fun st =>
@@ -71,10 +59,60 @@ def choiceNode (seq : List Node) : DM Node := do
   let i ← liftT (TM.popChoice (seq.map PyTM.encNode))
   liftE (PyRT.listChoice seq i)
 
+/-! ### CPython's `set` layout (setobject.c, 3.12): open addressing, 9 linear probes, then the perturbed jump;
+minimal table 8, grown to the first power of two > 4·used when fill·5 ≥ mask·3; no deletions occur in the translated
+code.  Only the driver uses this (to feed `DArgs.iter`); no theorem depends on it. -/
+
+structure CSet where
+  mask : Nat
+  table : Array (Option Node)
+  fill : Nat
+
+def CSet.empty : CSet := { mask := 7, table := Array.replicate 8 none, fill := 0 }
+
+/-- first free slot among `i, i+1, …, i+k` -/
+def freeIn (tbl : Array (Option Node)) (i : Nat) : Nat → Option Nat
+  | 0 => if (tbl.getD i none).isNone then some i else none
+  | k + 1 => if (tbl.getD i none).isNone then some i else freeIn tbl (i + 1) k
+
+/-- `set_insert_clean` / the unused-slot search of `set_add_entry` (the key is known to be absent) -/
+def findSlot (tbl : Array (Option Node)) (mask : Nat) : Nat → Nat → Nat → Option Nat
+  | 0, _, _ => none
+  | fuel + 1, i, perturb =>
+    match freeIn tbl i (if i + 9 ≤ mask then 9 else 0) with
+    | some j => some j
+    | none =>
+      let perturb := perturb / 32
+      findSlot tbl mask fuel ((i * 5 + 1 + perturb) % (mask + 1)) perturb
+
+def insertClean (hash : Node → Nat) (tbl : Array (Option Node)) (mask : Nat) (key : Node) : Array (Option Node) :=
+  match findSlot tbl mask (64 + 2 * (mask + 1)) (hash key % (mask + 1)) (hash key) with
+  | some j => tbl.setIfInBounds j (some key)
+  | none => tbl
+
+def CSet.add (hash : Node → Nat) (s : CSet) (key : Node) : CSet :=
+  if s.table.contains (some key) then s else
+  let tbl := insertClean hash s.table s.mask key
+  let fill := s.fill + 1
+  if fill * 5 < s.mask * 3 then { s with table := tbl, fill := fill } else
+  let minused := fill * 4
+  let rec grow (fuel size : Nat) : Nat := match fuel with
+    | 0 => size
+    | f + 1 => if size ≤ minused then grow f (size * 2) else size
+  let size := grow 64 8
+  let fresh : Array (Option Node) := Array.replicate size none
+  let tbl' := tbl.foldl (fun acc e => match e with | some k => insertClean hash acc (size - 1) k | none => acc) fresh
+  { mask := size - 1, table := tbl', fill := fill }
+
+/-- iteration order of the `set` built by adding the elements of `ins` one by one (`hash` = `hash(label) mod 2^64`) -/
+def cpyOrder (hash : Node → Nat) (ins : List Node) : List Node :=
+  ((ins.foldl (CSet.add hash) CSet.empty).table.toList.filterMap id)
+
 /-- what the translated slices read from their arguments -/
 structure DArgs where
   order : Int                                   -- G.order()
   nbrs : Node → List Node                       -- G.neighbors(u)
+  iter : List Node → List Node                  -- iteration order of a `set` with the given insertion history
   tmin : Rat
   tmax : ERat
   full : Bool                                   -- return_full_data
